@@ -9,6 +9,11 @@
 #include "common.hpp"
 
 static std::string g_sig, g_detail;
+static std::string vh_clean_sig(const std::string &s) {
+    std::string o;
+    for (char c : s) o.push_back((c == ' ' || c == ':' || c == '\n' || c == '\t') ? '-' : c);
+    return o;
+}
 
 extern "C" const char *vh_name(void) { return kName; }
 extern "C" const char *vh_last_sig(void) { return g_sig.c_str(); }
@@ -23,7 +28,7 @@ extern "C" int vh_run(const uint8_t *data, size_t size) {
         run_case(s);
         return 0;
     } catch (const vh::Failure &f) {
-        g_sig = f.sig;
+        g_sig = vh_clean_sig(f.sig);
         g_detail = f.detail;
         return 1;
     }
@@ -46,7 +51,7 @@ extern "C" int vh_enumerate(int shard, int nshards, const char *tier) {
     try {
         return enumerate(shard, nshards, tier);
     } catch (const vh::Failure &f) {
-        g_sig = f.sig;
+        g_sig = vh_clean_sig(f.sig);
         g_detail = f.detail;
         return 1;
     }
